@@ -51,6 +51,12 @@ enum Op {
     /// process per request, its answer read from its output) - or, `cli: false`, by library calls
     /// again. The same manifest is rewritten whichever way the request arrives
     Route { cli: bool },
+    /// the same manifest also lives in a second file - the container an administrator made of the
+    /// loose packs with `tools::concat` (same manifest uuid, other position in the file) - and the
+    /// location of listed pack `pack` is rewritten THERE. That file gets the new location and
+    /// stays valid; the first file does not change, and the other way round for every later
+    /// request to the first file
+    SetInSecondHome { pack: usize, loc: String },
 }
 
 fn containers(seed: u64, tier: Tier) -> Vec<(String, Logical)> {
@@ -364,6 +370,7 @@ static REFUSED: std::sync::atomic::AtomicU64 = std::sync::atomic::AtomicU64::new
 static NAMED_OTHERWISE: std::sync::atomic::AtomicU64 = std::sync::atomic::AtomicU64::new(0);
 static OVERLONG: std::sync::atomic::AtomicU64 = std::sync::atomic::AtomicU64::new(0);
 static CLI_REQUESTS: std::sync::atomic::AtomicU64 = std::sync::atomic::AtomicU64::new(0);
+static SECOND_HOME: std::sync::atomic::AtomicU64 = std::sync::atomic::AtomicU64::new(0);
 
 /// One rewrite request through `jbk locate <file> <uuid> <location>`; the tool's answer is turned
 /// into what `tools::set_location` would have returned: (pack kind, old location), "not listed",
@@ -547,7 +554,65 @@ fn run_history(dir: &Path, img: &Image, ops: &[Op]) -> (Vec<String>, usize) {
     // the name under which the caller designates the file (Op::NamedThrough)
     let mut call_path: std::path::PathBuf = entry.clone();
     let mut via_cli = false;
+    // the second home of the manifest (built when the history first asks for it) and what its
+    // descriptions must read
+    let second_home = dir.join("second-home.jbk");
+    let mut second_model: Option<Vec<SlotInfo>> = None;
     for (si, op) in flat.iter().enumerate() {
+        if let Op::SetInSecondHome { pack, loc } = op {
+            if img.one_file || img.files.len() < 2 {
+                continue;
+            }
+            let step = format!("step {si} (set slot {pack} in the manifest's second home, a container made with tools::concat)");
+            if second_model.is_none() {
+                // made from the files as they are now: the manifest there starts with the current model
+                let _ = std::fs::remove_file(&second_home);
+                let ins: Vec<std::path::PathBuf> = img.files.iter().map(|(n, _)| dir.join(n)).collect();
+                if let Err(e) = jubako::tools::concat(&ins, jubako::Utf8Path::from_path(&second_home).expect("utf8 scratch path")) {
+                    simcore::harness_error(&format!("C12: tools::concat of {}: {e}", img.name));
+                }
+                match read_manifest(&second_home) {
+                    Ok((infos, true, cc)) if cc != Some(false) && infos == model => second_model = Some(infos),
+                    other => {
+                        bad.push(format!("{step}: the container just made of the files does not show their manifest: {:?}", other.map(|(i, c, cc)| (i.len(), c, cc))));
+                        return (bad, steps);
+                    }
+                }
+            }
+            SECOND_HOME.fetch_add(1, std::sync::atomic::Ordering::Relaxed);
+            let sm = second_model.as_mut().unwrap();
+            let p = *pack % sm.len();
+            let loc: String = loc.chars().filter(|c| *c != '<' && *c != '>').collect();
+            match jubako::tools::set_location(&second_home, sm[p].uuid, loc.as_str().into()) {
+                Ok(Some((kind, old))) => {
+                    if old.as_str() != sm[p].location || format!("{kind:?}") != sm[p].kind {
+                        bad.push(format!("{step}: returned ({kind:?}, {:?}), the second home had ({}, {:?})", old.as_str(), sm[p].kind, sm[p].location));
+                    }
+                    sm[p].location = loc.clone();
+                }
+                Ok(None) => bad.push(format!("{step}: set_location says the pack is not in the manifest")),
+                Err(e) => bad.push(format!("{step}: set_location returned Err({})", dump::err_class(&e))),
+            }
+            match read_manifest(&second_home) {
+                Ok((infos, check, ccheck)) => {
+                    if &infos != sm {
+                        bad.push(format!("{step}: the second home's pack descriptions differ from what was stored there"));
+                    }
+                    if !check || ccheck == Some(false) {
+                        bad.push(format!("{step}: the second home's checks no longer verify"));
+                    }
+                }
+                Err(e) => bad.push(format!("{step}: the second home no longer opens: {e}")),
+            }
+            match std::fs::read(&entry) {
+                Ok(now) if now == prev => {}
+                _ => bad.push(format!("{step}: a request for the second home changed the first file")),
+            }
+            if !bad.is_empty() {
+                return (bad, steps);
+            }
+            continue;
+        }
         if let Op::Route { cli } = op {
             via_cli = *cli;
             continue;
@@ -646,7 +711,7 @@ fn run_history(dir: &Path, img: &Image, ops: &[Op]) -> (Vec<String>, usize) {
                 Rng::derive(*uuid_seed, "c12-unknown-uuid", 0).fill(&mut b);
                 (uuid::Uuid::from_bytes(b), resolve(loc), None)
             }
-            Op::RestoreAll | Op::FileSizeLimit { .. } | Op::AdvisoryLock { .. } | Op::NamedThrough { .. } | Op::Overlong { .. } | Op::Route { .. } => unreachable!(),
+            Op::RestoreAll | Op::FileSizeLimit { .. } | Op::AdvisoryLock { .. } | Op::NamedThrough { .. } | Op::Overlong { .. } | Op::Route { .. } | Op::SetInSecondHome { .. } => unreachable!(),
             Op::SetEquivalent { pack, how } => {
                 let cur = model[*pack].location.clone();
                 let new = match how {
@@ -880,6 +945,7 @@ fn ops_json(ops: &[Op]) -> Value {
             Op::NamedThrough { how } => json!({"named-through": how}),
             Op::Overlong { pack, len } => json!({"overlong": pack, "len": len}),
             Op::Route { cli } => json!({"route-cli": cli}),
+            Op::SetInSecondHome { pack, loc } => json!({"second-home-set": pack, "loc": loc}),
         })
         .collect::<Vec<_>>())
 }
@@ -891,6 +957,8 @@ fn ops_from_json(v: &Value) -> Vec<Op> {
         .map(|o| {
             if o == "restore-all" {
                 Op::RestoreAll
+            } else if let Some(p) = o.get("second-home-set") {
+                Op::SetInSecondHome { pack: p.as_u64().unwrap() as usize, loc: o["loc"].as_str().unwrap().to_string() }
             } else if let Some(x) = o.get("route-cli") {
                 Op::Route { cli: x.as_bool().unwrap_or(false) }
             } else if let Some(x) = o.get("advisory-lock") {
@@ -1046,7 +1114,16 @@ pub fn worker_main(args: &Args, w: usize, n: usize) -> ! {
                     ops.insert(back, Op::Route { cli: false });
                 }
             }
+            // one history in five of a container of loose packs also relocates packs in the
+            // manifest's second home, between the requests to the first file
+            if img.files.len() >= 2 && !img.one_file && n_listed <= 8 && route_rng.chance(1, 5) {
+                for _ in 0..route_rng.range(1, 4) {
+                    let at = route_rng.usize_below(ops.len() + 1);
+                    ops.insert(at, Op::SetInSecondHome { pack: route_rng.usize_below(n_listed), loc: gen_location(&mut route_rng) });
+                }
+            }
             CLI_REQUESTS.store(0, std::sync::atomic::Ordering::Relaxed);
+            SECOND_HOME.store(0, std::sync::atomic::Ordering::Relaxed);
             REFUSED.store(0, std::sync::atomic::Ordering::Relaxed);
             NAMED_OTHERWISE.store(0, std::sync::atomic::Ordering::Relaxed);
             OVERLONG.store(0, std::sync::atomic::Ordering::Relaxed);
@@ -1055,6 +1132,7 @@ pub fn worker_main(args: &Args, w: usize, n: usize) -> ! {
             let named_otherwise = NAMED_OTHERWISE.load(std::sync::atomic::Ordering::Relaxed);
             let overlong = OVERLONG.load(std::sync::atomic::Ordering::Relaxed);
             let cli_requests = CLI_REQUESTS.load(std::sync::atomic::Ordering::Relaxed);
+            let second_home = SECOND_HOME.load(std::sync::atomic::Ordering::Relaxed);
             let (bad, steps) = match r {
                 Ok(x) => x,
                 Err(_) => {
@@ -1078,7 +1156,7 @@ pub fn worker_main(args: &Args, w: usize, n: usize) -> ! {
             println!(
                 "{}",
                 json!({"t":"case","ii":ii,"image":img.name,"h":h,"ops":ops_json(&ops),"steps":steps,"bad":bad,
-                       "minimised": min_ops, "write_refused_by_file_size_limit": refused, "named_otherwise": named_otherwise, "overlong_requests": overlong, "requests_through_the_command_line_tool": cli_requests,
+                       "minimised": min_ops, "write_refused_by_file_size_limit": refused, "named_otherwise": named_otherwise, "overlong_requests": overlong, "requests_through_the_command_line_tool": cli_requests, "requests_to_the_second_home": second_home,
                        "file_size_limited": ops.iter().any(|o| matches!(o, Op::FileSizeLimit { .. })),
                        "max_loc": ops.iter().map(|o| match o { Op::Set{loc,..} | Op::SetUnknown{loc,..} => loc.len(), _ => 0}).max().unwrap_or(0)})
             );
@@ -1141,6 +1219,9 @@ pub fn parent_main(args: &Args) -> ! {
         }
         if r["overlong_requests"].as_u64().unwrap_or(0) > 0 {
             ev.fired("request-the-library-must-refuse (location above 213 bytes)", r["overlong_requests"].as_u64().unwrap());
+        }
+        if r["requests_to_the_second_home"].as_u64().unwrap_or(0) > 0 {
+            ev.fired("history:same-manifest-in-a-second-file (tools::concat container) relocated between the requests", r["requests_to_the_second_home"].as_u64().unwrap());
         }
         if r["requests_through_the_command_line_tool"].as_u64().unwrap_or(0) > 0 {
             ev.fired("route:request-made-through-the-jbk-command-line-tool (separate process)", r["requests_through_the_command_line_tool"].as_u64().unwrap());
